@@ -147,10 +147,22 @@ def install(model, it, nested):
         it.func_hooks[model.func(short).qualname] = hook
 
 
+def line_number_of(model, w):
+    """lines.line_number() of an explored wrapper, by running FileWrapper's own method on it."""
+    it = Interp(model)
+    it.reset_run(Oracle())
+    try:
+        return it.call(it.getattr(w, 'line_number'), [], {})
+    except Raised:
+        return None
+
+
 def explore_reader(model, cls, nlines=3, max_paths=4000, prev_marker=False):
     """All paths of cls.read(FileWrapper(lines, start_line=S)); yields (nested calls, result, cursor)."""
     fw = model.cls('block_tokenizer.FileWrapper')
     out = []
+    hit = fw.lookup('__next__')
+    nx = hit[1] if hit is not None and hit[0] == 'method' else None
 
     def run(oracle):
         it = Interp(model, loop_bound=1, while_bound=nlines + 1)
@@ -159,6 +171,21 @@ def explore_reader(model, cls, nlines=3, max_paths=4000, prev_marker=False):
         install(model, it, nested)
         lines = [AbsStr(label='line%d' % i) for i in range(nlines)]
         w = it.construct(fw, [lines], {'start_line': S})
+        w.peak_line = None      # furthest line_number() reached after any next(): S + k
+
+        def next_hook(interp, fi, args, kwargs):
+            del interp.func_hooks[nx.qualname]
+            try:
+                v = interp.call_function(fi, args, kwargs)
+            finally:
+                interp.func_hooks[nx.qualname] = next_hook
+            if args and args[0] is w:
+                ln = Aff.lift(interp.call(interp.getattr(w, 'line_number'), [], {}))
+                if ln is not None and (w.peak_line is None or (ln.add(w.peak_line, -1).is_const() and ln.add(w.peak_line, -1).const > 0)):
+                    w.peak_line = ln
+            return v
+        if nx is not None:
+            it.func_hooks[nx.qualname] = next_hook
         try:
             r = it.call(it.getattr(cls, 'read'), [w], {})
         except Raised as e:
@@ -176,21 +203,21 @@ def explore_reader(model, cls, nlines=3, max_paths=4000, prev_marker=False):
 
 def rule_filewrapper(ctx, rep):
     model = ctx.model
-    rep.rule('R-FILEWRAPPER', 'line_number() = start_line + _index; _index starts at -1')
+    rep.rule('R-FILEWRAPPER', 'the cursor starts before the first line; after reading the i-th line line_number() = start_line + i')
     fw = model.cls('block_tokenizer.FileWrapper')
     rep.instance('R-FILEWRAPPER')
     it = Interp(model)
     it.reset_run(Oracle())
     lines = [AbsStr(label='line0'), AbsStr(label='line1')]
     w = it.construct(fw, [lines], {'start_line': S})
-    ok0 = w.attrs.get('_index') == -1
+    ok0 = it.call(it.getattr(w, 'peek'), [], {}) is lines[0]      # the cursor starts before the first line
     seq = []
     for i in range(2):
         v = it.call(it.getattr(w, '__next__'), [], {})
         ln = it.call(it.getattr(w, 'line_number'), [], {})
         seq.append((v is lines[i], ln == S.add(Aff({}, i))))
     ok = ok0 and all(a and b for a, b in seq)
-    rep.obligation('R-FILEWRAPPER', ok, {'_index initially': w.attrs.get('_index') if not ok0 else -1,
+    rep.obligation('R-FILEWRAPPER', ok, {'cursor initially before the first line': ok0,
                                         'after reading line i, line_number()': 'S + i' if ok else repr(seq)})
     if not ok:
         rep.find('R-FILEWRAPPER', 'block_tokenizer.FileWrapper.line_number', 'start_line+_index',
@@ -288,15 +315,7 @@ def rule_capture(ctx, rep):
 def rule_origin(ctx, rep):
     model = ctx.model
     rep.rule('R-ORIGIN', 'start_line of every nested tokenize_block = source line of the first element of its buffer')
-    readers = []
-    for cls in blockproto.block_classes(model, ctx.configs()) + [model.cls('block_token.ListItem')]:
-        hit = cls.lookup('read')
-        if hit is None:
-            continue
-        # does read (transitively inside the class) call tokenize_block?
-        txt = ast.unparse(hit[1].node)
-        if 'tokenize_block' in txt and cls not in readers:
-            readers.append(cls)
+    readers = blockproto.container_readers(ctx)
     if len(readers) < 2:
         rep.note('only %d reader(s) re-tokenize a buffer in read(): %s' % (len(readers), [c.short for c in readers]))
     if len(readers) < 1:
